@@ -367,27 +367,32 @@ def r2_relations(ctx):
                   "segment column has a different length")
     # ---- smoothing
     f = steps["smooth_height"]
+    Rs = Resolver(f)
     for seg in ("appr", "retr"):
-        ok = False
-        for st in walk_no_nested(f, False):
-            if isinstance(st, ast.Assign) and norm(st.targets[0]) == \
-                    f"apret.{seg}[col]":
-                v = st.value
-                src = norm(v)
-                if isinstance(v, ast.Name):
-                    for s2 in walk_no_nested(f, False):
-                        if isinstance(s2, ast.Assign) and norm(
-                                s2.targets[0]) == v.id:
-                            src = norm(s2.value)
-                ok = src == f"smooth_axis_monotone(apret.{seg}[col])"
+        stores_ = [st for st in walk_no_nested(f, False)
+                   if isinstance(st, ast.Assign) and isinstance(
+                       st.targets[0], ast.Subscript)
+                   and norm(st.targets[0].value) == f"apret.{seg}"]
+        ok = bool(stores_)
+        cols_ = set()
+        for st in stores_:
+            key = norm(st.targets[0].slice)
+            cols_.add(key)
+            v = st.value
+            if isinstance(v, ast.Name):
+                rv = Rs.reaching_value(v)
+                if rv is not None:
+                    v = rv
+            ok = ok and norm(v) == f"smooth_axis_monotone(apret.{seg}[{key}])"
         ctx.check(ok, f, f"{seg} segment smoothed from itself",
                   f"the {seg} segment of a height column is not replaced by "
                   "the monotone smoothing of that same segment")
     # every present column is smoothed: the only admissible skip is the
     # absence of the column (strictly monotonic data may be skipped too)
     for st in walk_no_nested(f, False):
-        if isinstance(st, ast.Assign) and norm(st.targets[0]).startswith(
-                "apret.") and norm(st.targets[0]).endswith("[col]"):
+        if isinstance(st, ast.Assign) and isinstance(
+                st.targets[0], ast.Subscript) and norm(
+                st.targets[0].value) in ("apret.appr", "apret.retr"):
             for a in conditions_at(st):
                 if a.text.endswith(" in apret"):
                     continue
